@@ -564,6 +564,9 @@ def run(check, ctx):
     primality_tables(check, repo, thorough=ctx.tier == "thorough")
     legacy_primality_rows(check, repo, thorough=ctx.tier == "thorough")
     strong_prime_interval(check, repo)
+    # generated primes are fresh draws of exactly the requested size
+    from .c18_extra import prime_generation_tapes
+    prime_generation_tapes(check, repo, prop="C14")
 
 
 def strong_prime_interval(check, repo):
